@@ -1,10 +1,10 @@
 INIT HistInit
 NEXT HistNext
 CONSTANTS
-  DataSets <- MCDataSets
+  DataSets <- MCHistDataSets
   ParamVals <- MCParamVals1
   Kinds = {"plain", "window", "strategy"}
-  WindowSizes = {2}
+  WindowSizes = {0, 3}
   MaxDepth = 4
   WriteBack = FALSE
   FitOnAll = FALSE
